@@ -34,6 +34,13 @@ def fresh_iterator_rules(ctx):
     ctx.floor("C06.e", "FindMatchesImpl constructors", len(aggs), 1)
     for fn, bb, i, s in aggs:
         ok = re.search(r"FindMatchesImpl::<..>::new$", fn.name) is not None
+        if not ok:
+            # `Self { ..x }`: every field moved out of one existing value in order — a move of that value, not a construction
+            fl_ = s["rv"]["fields"]
+            pls_ = [M.operand_place(o_) for o_ in fl_]
+            if len(pls_) >= 2 and all(pl_ is not None and pl_["l"] == pls_[0]["l"] and len(pl_["pj"]) == len(pls_[0]["pj"]) and pl_["pj"] and pl_["pj"][-1]["k"] == "field" and pl_["pj"][-1]["i"] == k_
+                                     and pl_["pj"][:-1] == pls_[0]["pj"][:-1] for k_, pl_ in enumerate(pls_)):
+                continue
         ctx.ob("C06.e", "ctor-only-in-new:" + M.short_name(fn.name), ok, "FindMatchesImpl is constructed in %s" % fn.name, fn.loc(bb, i))
     new = F.fn(r"FindMatchesImpl::<..>::new$")
     ctx.analysed_fn(new)
@@ -419,7 +426,7 @@ def mode_switch_rules(ctx):
     # execute_possible_mode_switch: writes current_mode exactly when has_transition returns Some(m), := m
     es = F.fn(r"ScannerImpl::execute_possible_mode_switch$")
     ctx.analysed_fn(es)
-    ex, paths = run_fn(es, F, Model(), inline=r"ScannerImpl::has_transition$")
+    ex, paths = run_fn(es, F, Model(), inline=r"ScannerImpl::(has_transition|set_mode|current_mode)$|ScannerImpl as .*ScannerModeSwitcher>::(set_mode|current_mode)$")
     rp = ret_paths(paths)
     ctx.floor("C06.c", "return paths of execute_possible_mode_switch", len(rp), 2)
     for p in rp:
@@ -486,6 +493,10 @@ def check(ctx):
             ctx.ob("C06.a", "ctor:" + M.short_name(fn.name), True, "derived Clone copies current_mode", fn.loc(bb, i))
             continue
         ok = op["k"] == "const" and op.get("val") == 0
+        if not ok and op["k"] in ("copy", "move"):
+            # a local that holds the literal (`let current_mode = 0;` assembled into the struct at the end)
+            e_ = M.Prov(fn).operand(op)
+            ok = e_[0] == "const" and e_[2] == 0
         ctx.ob("C06.a", "ctor:" + M.short_name(fn.name), ok,
                "ScannerImpl constructed with current_mode = %s (must be the literal 0)" % M.op_str(op), fn.loc(bb, i))
 
@@ -578,9 +589,9 @@ def check(ctx):
         v = variant_of(ex, p, res)
         ret = p.end[1]
         if v == "Some":
-            ok = ret[0] == "adt" and ret[2] == "Some" and ret[3][0] == ("field", ("downcast", res, "Some"), "0")
+            ok = (ret[0] == "adt" and ret[2] == "Some" and ret[3][0] == ("field", ("downcast", res, "Some"), "0")) or ret == res
         else:
-            ok = variant_of(ex, p, ret) == "None"
+            ok = variant_of(ex, p, ret) == "None" or ret == res
         ctx.ob("C06.f", "peek_from-returns-the-attempt", ok, "attempt %s -> returns %s" % (v, S.vstr(ret)), pf.loc())
 
     # ---- C06.g set_mode / current_mode / mode_name forwarding chains -----------------------------
